@@ -28,7 +28,7 @@ RULE = ("one case = EigenSolve configuration (dense/sparse, standard/generalised
         "changed matrices (cached shift-invert solver / flags reused) or a sparse solve (start-vector injection fired)")
 PROBES = ["sigma_inside_spectrum", "singular_B_on_constrained_dofs", "solver_reuse_3_matrices", "custom_sorting", "complex_hermitian",
           "general_complex_spectrum", "adjoint_cycle_between_responses", "sparse_eigvec_seed", "two_instances_interleaved",
-          "closest_to_sigma_compared", "dense_full_spectrum_compared", "exact_zero_mean_eigenvector"]
+          "closest_to_sigma_compared", "dense_full_spectrum_compared", "exact_zero_mean_eigenvector", "nonsymmetric_positive_definite_B"]
 FAULT_KINDS = ["arpack_start_vector_varied"]
 COMPONENTS = {"real": ["pymoto.EigenSolve", "pymoto.solvers.auto_determine_solver / SolverSparseLU (shift-invert)",
                        "pymoto.AssembleStiffness / AssembleMass (FE pencils)", "scipy ARPACK (eigsh/eigs), LAPACK (eigh/eig)"],
@@ -84,7 +84,7 @@ def gen(rng, idx, tier):
     return dict(storage=storage, cls=cls, n=n, gen=gen_, nmodes=int(rng.integers(1, 5)),
                 sigma=str(rng.choice(["none", "none", "zero", "inside", "below"])), sort=str(rng.choice(["default", "default"] + SORTS)),
                 flag=bool(rng.random() < 0.3), fe=dict(nx=int(rng.integers(4, 6)), ny=int(rng.integers(3, 5)), bc=str(rng.choice(["left", "bottom"]))),
-                nobj=nobj, a0=int(rng.integers(1 << 30)), ops=ops)
+                nobj=nobj, a0=int(rng.integers(1 << 30)), bskew=bool(rng.random() < 0.25), ops=ops)
 
 
 def simplify(case):
@@ -129,6 +129,8 @@ class Inst:
         self.sparse = case["storage"] in ("sparse", "fe")
         cls = case["cls"]
         self.herm = cls in ("spd", "sym", "hpd", "herm", "fe", "blocks2")
+        if case.get("bskew") and case["gen"] and case["storage"] == "dense" and cls != "blocks2":
+            self.herm = False
         self.cplx = cls in ("hpd", "herm", "generalc")
         kw = {}
         fn = sort_fn(case["sort"])
@@ -163,7 +165,12 @@ class Inst:
             mcls = {"generalc": "general"}.get(c["cls"], c["cls"])
             self.A = G.make_matrix(dict(n=n, cls=mcls, cplx=self.cplx, sparse=sp, seed=self.a_seed, pattern="full" if not self.sparse else "banded"))
             self.B = None
-            if c["gen"] and c["cls"] == "blocks2":
+            if c["gen"] and c.get("bskew") and not self.sparse and c["cls"] != "blocks2":
+                # B positive definite but NOT symmetric (SPD + skew part): the pencil is general even for symmetric A
+                Bs = G.make_matrix(dict(n=n, cls="spd", cplx=False, sparse=None, seed=self.a_seed + 3, pattern="full"))
+                K = sub_rng(0x112, self.a_seed).uniform(-1, 1, (n, n))
+                self.B = Bs + 0.4 * (K - K.T)
+            elif c["gen"] and c["cls"] == "blocks2":
                 self.B = np.eye(n) * float(1.0 + (self.a_seed % 3))      # equal lumped masses keep the structure
             elif c["gen"]:
                 self.B = G.make_matrix(dict(n=n, cls="hpd" if self.cplx else "spd", cplx=self.cplx, sparse=sp, seed=self.a_seed + 3,
@@ -304,6 +311,8 @@ def run(case):
         k = W.size
         if I.cplx and I.herm:
             probe("complex_hermitian")
+        if I.B is not None and not I.sparse and not np.allclose(Bd, Bd.conj().T):
+            probe("nonsymmetric_positive_definite_B")
         exp_k = n if not I.sparse else case["nmodes"]
         if Q.ndim != 2 or Q.shape != (n, k) or k != exp_k:
             viol("shape", f"returned {k} values and Q of shape {Q.shape}; expected {exp_k} pairs of dimension {n}", at)
